@@ -339,3 +339,16 @@ fn f64_canary_must_fail() {
     let r = BaseElement(a) + BaseElement(b);
     assert!(r.0 == subm(a, b));
 }
+
+// ---- quadratic extension over the 64-bit field: the multiplier-free function, checked directly ----
+#[kani::proof]
+fn f64_ext2_frobenius_contract() {
+    let (a, b) = (any_rep(), any_rep());
+    let r = <BaseElement as ExtensibleField<2>>::frobenius([BaseElement(a), BaseElement(b)]);
+    assert!(r[0].0 < M && r[1].0 < M);
+    assert!(r[0].0 == addm(a, b));
+    assert!(r[1].0 == subm(0, b));
+    let rr = <BaseElement as ExtensibleField<2>>::frobenius(r);
+    assert!(rr[0].0 == a && rr[1].0 == b);
+    assert!((r[0].0 == a && r[1].0 == b) == (b == 0));
+}
